@@ -594,7 +594,9 @@ impl<K, V, S> Inner<K, V, S> {
 
     #[inline]
     fn set_valid_after(&self, timestamp: Instant) {
-        self.valid_after.set_instant(timestamp);
+        // Never move the mark backwards: of two `invalidate_all` calls racing each
+        // other, the one that read the clock first may store last.
+        self.valid_after.advance_to(timestamp);
     }
 
     #[inline]
